@@ -237,6 +237,57 @@ def k_write(run, case, rng, work):
                   text=text[:400])
 
 
+def k_write_archive(run, case, rng, work):
+    """trajectory files embedded in a result archive: each member is read by the independent
+    parser and must hold exactly the poses of its trajectory (several trajectories of different
+    lengths in one archive, stamped ones as TUM, paths as KITTI members)"""
+    import zipfile
+    from evo.core.result import Result
+    from evo.tools import file_interface as fi
+    from vmon.props import C06
+    r = Result()
+    r.info = {"title": "t", "label": "l"}
+    r.stats = {"rmse": 1.0}
+    r.np_arrays = {"error_array": rng.normal(size=5)}
+    m = int(rng.integers(2, 5))
+    given = {}
+    for k in range(m):
+        n = int(rng.integers(1, 60))
+        stamped = bool(rng.random() < .6)
+        tr = C06.make_traj(rng, n, ["random17", "ordinary", "epoch", "integers"][rng.integers(4)],
+                           "se3" if rng.random() < .5 else "xyzq", stamped=stamped)
+        name = "traj_%d" % k
+        r.add_trajectory(name, tr)
+        given[name] = (stamped, gen.read_views(tr))
+    target = io.BytesIO() if rng.random() < .5 else os.path.join(work, "res.zip")
+    fi.save_res_file(target, r)
+    data = target.getvalue() if isinstance(target, io.BytesIO) else open(target, "rb").read()
+    run.seen(case, core.digest(data), cls=["write result archive with %d embedded trajectories" % m],
+             sample={"lengths": [len(v[1]["p"]) for v in given.values()], "stamped": [v[0] for v in given.values()]})
+    with zipfile.ZipFile(io.BytesIO(data)) as z:
+        names = z.namelist()
+        for name, (stamped, v) in given.items():
+            member = name + (".tum" if stamped else ".kitti")
+            if not run.check(member in names, "embedded trajectory member present", case,
+                             "member %s missing from the archive (%s)" % (member, names), key="write:archive-member"):
+                continue
+            text = z.read(member).decode()
+            try:
+                if stamped:
+                    t, p, R, q = rm.parse_tum(text)
+                    good = same_bits(t, v["t"]) and same_bits(p, v["p"]) and same_bits(q, v["q"])
+                else:
+                    p, R = rm.parse_kitti(text)
+                    good = same_bits(p, v["p"]) and same_bits(R, v["T"][:, :3, :3])
+            except rm.ParseError as e:
+                run.check(False, "evo's output follows the convention", case, "independent parser rejects the archive "
+                          "member %s: %s" % (member, e), key="write:archive-unparseable", text=text[-300:])
+                continue
+            run.check(good, "embedded trajectory file read by the independent parser gives the same poses", case,
+                      "archive member %s (%d rows) does not denote the %d poses of its trajectory" %
+                      (member, len(p), len(v["p"])), key="write:archive-convention")
+
+
 DEFECTS = ["too_few", "too_many", "trailing_delim", "non_numeric", "blank_middle", "blank_end",
            "no_rows", "wrong_delim", "compensating", "empty_field"]
 
@@ -393,7 +444,7 @@ def k_transform(run, case, rng, work):
 
 
 KINDS = {"read": with_work(k_read), "write": with_work(k_write), "malformed": with_work(k_malformed),
-         "transform": with_work(k_transform)}
+         "transform": with_work(k_transform), "write_archive": with_work(k_write_archive)}
 
 
 def main(run):
@@ -401,6 +452,8 @@ def main(run):
         KINDS["read"](run, run.case("read", i))
     for i in run.mine({"quick": 200, "thorough": 5000}[run.tier]):
         KINDS["write"](run, run.case("write", i))
+    for i in run.mine({"quick": 120, "thorough": 3000}[run.tier]):
+        KINDS["write_archive"](run, run.case("write_archive", i))
     # malformed: defect x format x every row/column position of small files
     cells = []
     nrows = {"quick": (1, 3), "thorough": (1, 2, 3, 5)}[run.tier]
@@ -426,7 +479,7 @@ def main(run):
     reps = {"quick": 30, "thorough": 300}[run.tier]
     for i in run.mine(len(tcells) * reps):
         KINDS["transform"](run, run.case("transform", i, **tcells[i % len(tcells)]))
-    run.need("well-formed file is loaded", "tum: quaternion components in the right slots (w,x,y,z)",
+    run.need("embedded trajectory file read by the independent parser gives the same poses", "well-formed file is loaded", "tum: quaternion components in the right slots (w,x,y,z)",
              "euroc: quaternion components in the right slots (w,x,y,z)",
              "kitti: rotation follows the convention", "euroc: timestamps are the numbers in the file (ns -> s for EuRoC)",
              "written TUM file read by the independent parser gives the same poses",
